@@ -137,7 +137,7 @@ def execute(plan):
         faults = plan['faults']
         if faults == 'all':
             faults = [['abandon', k, mode] for k in range(n + 1) for mode in ('close', 'drop')]
-            faults += [['raise', j, ph] for j in range(1, min(ncalls, c03.MAX_RAISE_POINTS) + 1) for ph in ('pre', 'resume')]
+            faults += [['raise', j, ph, core.INJECTED_KINDS[(j + i) % 4]] for j in range(1, min(ncalls, c03.MAX_RAISE_POINTS) + 1) for i, ph in enumerate(('pre', 'resume'))]
         for fault in faults:
             if fault[0] == 'abandon':
                 log.count('abandon_' + fault[2])
@@ -145,13 +145,14 @@ def execute(plan):
                     return log.result()
             else:
                 log.count('cases')
-                ans, end, info = c03.run_query(sim, ypB, name, qargsB, ctlB, None, 'exhaust', (fault[1], fault[2]))
+                ans, end, info = c03.run_query(sim, ypB, name, qargsB, ctlB, None, 'exhaust', (fault[1], fault[2], fault[3] if len(fault) > 3 else 'Exception'))
                 exc_same = end == 'boom'
                 del ctlB['args'][:]
                 log.ev('raise', fault[1], fault[2], end, len(ans), info['fired'])
                 if info['fired']:
                     log.count('raise_fired')
-                    log.key((shape, 'raise', fault[2], len(ans)))
+                    log.key((shape, 'raise', fault[2], fault[3] if len(fault) > 3 else 'Exception', len(ans)))
+                    log.count('raise_kind_' + (fault[3] if len(fault) > 3 else 'Exception'))
                     if not exc_same:
                         log.violation('native-exception-changed', {'fault': fault, 'arrived_as': end, 'answers_before': len(ans)})
                         return log.result()
